@@ -8,7 +8,8 @@ cd $d
 if git apply --3way /verif/seeded/$id/patch.diff 2>/tmp/rb.err; then
   git diff HEAD > /verif/seeded/$id/patch.diff.new
   cp /repo/src/rsatoolbox/cengine/*.so src/rsatoolbox/cengine/ 2>/dev/null || true
-  if PYTHONPATH=$d/src /venv/bin/python /verif/seeded/$id/demo.py >/dev/null 2>&1; then echo "$id: demo PASSES with rebased patch (patch no longer breaks the property?)"; rm /verif/seeded/$id/patch.diff.new;
+  if [ ! -f /verif/seeded/$id/demo.py ]; then mv /verif/seeded/$id/patch.diff.new /verif/seeded/$id/patch.diff; echo "$id: rebased (refactoring, no demo)";
+  elif PYTHONPATH=$d/src /venv/bin/python /verif/seeded/$id/demo.py >/dev/null 2>&1; then echo "$id: demo PASSES with rebased patch (patch no longer breaks the property?)"; rm /verif/seeded/$id/patch.diff.new;
   else mv /verif/seeded/$id/patch.diff.new /verif/seeded/$id/patch.diff; echo "$id: rebased, demo still fails with it"; fi
 else
   echo "$id: 3-way failed: $(head -2 /tmp/rb.err)"
